@@ -223,8 +223,19 @@ def run_probe(r, host="p1.r1", n_req=3, delay=0, app_id=4, realm="r1"):
         r.do({"a": "tick", "probe": "end"})
         return
     r.do({"a": "feed", "c": c, "ms": [nt.M("CE", True, 1, 1, oh=host, auth=[app_id])], "probe": "cer"})
+    # the first probe requests reuse identifiers of earlier requests that were delivered to the application and never
+    # answered (a restarted client retransmitting), the rest are fresh
+    delivered, answered = [], set()
+    for st_ in r.steps:
+        for e in st_["out"]:
+            if e["ev"] == "app_req" and e["m"]["code"] == 272:
+                delivered.append((e["m"]["hbh"], e["m"]["e2e"]))
+            elif e["ev"] == "tx" and not e["m"]["req"]:
+                answered.add((e["m"]["hbh"], e["m"]["e2e"]))
+    reuse = [k for k in dict.fromkeys(delivered) if k not in answered][:2] + [(1, 1), (2, 2)]
     for i in range(n_req):
-        r.do({"a": "feed", "c": c, "ms": [nt.M("APP", True, 500 + i, 600 + i, app=app_id, oh=host, realm=realm)], "probe": "req"})
+        hbh, e2e = reuse[i] if i < 2 else (500 + i, 600 + i)
+        r.do({"a": "feed", "c": c, "ms": [nt.M("APP", True, hbh, e2e, app=app_id, oh=host, realm=realm)], "probe": "req"})
         for _ in range(delay):
             r.do({"a": "tick"})
     r.do({"a": "tick"})
